@@ -77,8 +77,22 @@ func typeShape(tn *types.TypeName) string {
 		ms = append(ms, n.Method(i).Name())
 	}
 	sort.Strings(ms)
-	// references to unexported types of the module are structure, not names
-	u := strings.ReplaceAll(n.Underlying().String(), self, "·")
+	// references to unexported types of the module are structure, not names; so are the names
+	// of a struct's unexported fields (a type and its fields are often renamed in one commit)
+	us := n.Underlying().String()
+	if st, ok := n.Underlying().(*types.Struct); ok {
+		var fs []string
+		for i := 0; i < st.NumFields(); i++ {
+			f := st.Field(i)
+			if f.Exported() || f.Embedded() {
+				fs = append(fs, f.Name()+" "+f.Type().String())
+			} else {
+				fs = append(fs, "_ "+f.Type().String())
+			}
+		}
+		us = "struct{" + strings.Join(fs, "; ") + "}"
+	}
+	u := strings.ReplaceAll(us, self, "·")
 	u = unexportedTypeRef.ReplaceAllString(u, "$1·u")
 	return u + " {" + strings.Join(ms, ",") + "}"
 }
@@ -105,16 +119,48 @@ func sigString(fn *types.Func) string {
 	}
 	var ps, rs []string
 	for i := 0; i < sig.Params().Len(); i++ {
-		ps = append(ps, sig.Params().At(i).Type().String())
+		ps = append(ps, typeStringNoNames(sig.Params().At(i).Type()))
 	}
 	for i := 0; i < sig.Results().Len(); i++ {
-		rs = append(rs, sig.Results().At(i).Type().String())
+		rs = append(rs, typeStringNoNames(sig.Results().At(i).Type()))
 	}
 	v := ""
 	if sig.Variadic() {
 		v = "..."
 	}
 	return canonTypes("(" + strings.Join(ps, ",") + v + ")(" + strings.Join(rs, ",") + ")")
+}
+
+// typeStringNoNames renders a type without the parameter / result names of the
+// function types inside it (`func(length, bound int) bool` and
+// `func(length int, comparison int) bool` are one type).
+func typeStringNoNames(t types.Type) string {
+	switch x := t.(type) {
+	case *types.Signature:
+		var ps, rs []string
+		for i := 0; i < x.Params().Len(); i++ {
+			ps = append(ps, typeStringNoNames(x.Params().At(i).Type()))
+		}
+		for i := 0; i < x.Results().Len(); i++ {
+			rs = append(rs, typeStringNoNames(x.Results().At(i).Type()))
+		}
+		v := ""
+		if x.Variadic() {
+			v = "..."
+		}
+		return "func(" + strings.Join(ps, ",") + v + ")(" + strings.Join(rs, ",") + ")"
+	case *types.Pointer:
+		return "*" + typeStringNoNames(x.Elem())
+	case *types.Slice:
+		return "[]" + typeStringNoNames(x.Elem())
+	case *types.Array:
+		return fmt.Sprintf("[%d]", x.Len()) + typeStringNoNames(x.Elem())
+	case *types.Map:
+		return "map[" + typeStringNoNames(x.Key()) + "]" + typeStringNoNames(x.Elem())
+	case *types.Chan:
+		return "chan " + typeStringNoNames(x.Elem())
+	}
+	return t.String()
 }
 
 func recvString(fn *types.Func) string {
@@ -511,10 +557,15 @@ func (c *Ctx) computeRenames() {
 	delete(c.memo, "funcIndex")
 	delete(c.memo, "anchorCurrent")
 	for k := range c.memo {
-		if strings.HasPrefix(k, "renamedFunc:") {
+		if strings.HasPrefix(k, "renamedFunc:") || strings.HasPrefix(k, "renamedField:") || strings.HasPrefix(k, "renamedObj:") {
 			delete(c.memo, k)
 		}
 	}
+	// fields and package-level objects are recognised by the functions that use them: now that
+	// renamed functions answer to their audited names, match them again (a commit that renames
+	// a field together with one of its two users would otherwise hide the field)
+	c.computeFieldRenames()
+	c.computeObjRenames()
 }
 
 // LookupPkgObj finds a package-level constant or variable "pkgRel.name"; an
